@@ -18,16 +18,18 @@ def spec(tier, seed):
             sk.instr_equation(b, ins, "vk_c17", h, m, "quick" if h <= 3 else "thorough")
     val = b.file(sk.VAL_FILE, "rusty_basic", "interpreter::built_ins::val")
     b.helper(val, sk.POWI10)
-    for d in (1, 2, 3, 4, 5):
-        sk.val_equation(b, val, "vk_c17", d, False, "quick" if d <= 3 else "thorough", core=d <= 3)
-    for d in (1, 2, 3):
-        sk.val_equation(b, val, "vk_c17", d, True, "quick" if d <= 2 else "thorough", core=d <= 2)
+    # the type boundaries of VAL sit at 5 digits (32767 / 32768) and 10 digits (2147483647 / 2147483648)
+    for d in (1, 2, 3, 4, 5, 6, 7):
+        sk.val_equation(b, val, "vk_c17", d, False, "quick" if d in (1, 3, 5) else "thorough", core=d <= 5)
+    for d in (1, 2, 5):
+        sk.val_equation(b, val, "vk_c17", d, True, "quick" if d in (2, 5) else "thorough", core=d <= 5)
+    sk.val_boundary(b, val, "vk_c17")      # 9 and more fully symbolic digits: no verdict in 1200 s
     casts = b.file(sk.CASTS_FILE, "rusty_basic", "interpreter::variant_casts")
     sk.arg_casts(b, casts, "vk_c17")
     return b.build(
         tier,
         bounds="strings of exactly 0..3 (quick) / 0..4 (thorough) 7-bit bytes, one instance per length; needle 1..2; MID$ start 1..32767 and count 0..32767 (everything the argument conversions let through), INSTR start 1..len+2; "
-               "VAL on 1..3 (quick) / 1..5 digits; argument conversions full width",
+               "VAL on 1, 3, 5 digits (quick) / up to 7 digits (thorough) and around the LONG boundary (+-21474836dd); argument conversions full width",
         outside="LEFT$, RIGHT$, LTRIM$, RTRIM$, UCASE$, LCASE$, SPACE$, STRING$, LEN and the concatenation laws (inline in "
                 "run<S: InterpreterTrait>, need the VM Context); STR$ (format!); non-ASCII strings; INSTR with an empty needle",
         stubs=["f64::powi(10.0, k) -> exact product for 0 <= k <= 6 (Kani over-approximates powi); used only by vk_c17_val_*"],
